@@ -419,6 +419,77 @@ def gen_field(rng, tier, exact=None, nv=None, labels="word", unit="std", vcls=No
                 nv=nv, vdims=vd, unit=u, vals=[fhex(x) for x in vals], vcls=vcls)
 
 
+DIM_POOLS = [["x", "y", "z"], ["V", "n", "r"], ["v", "r", "n"], ["a", "ab", "abc"], ["z", "y", "x"]]
+PREFIX_LABELS = ["m", "mx", "mxy", "mxyz", "mxyzw"]
+
+
+def dress(rng, fc):
+    """the same field request in other argument representations (types must not matter)"""
+    p = [unhex(x) for x in fc["p1"] + fc["p2"]]
+    ctypes = ["list", "list", "tuple", "ndarray"]
+    if all(float(x).is_integer() and abs(x) < 2 ** 40 for x in p):
+        ctypes += ["int", "int", "i64arr"]
+    if all(f32(x) == x for x in p):
+        ctypes += ["f32"]
+    fc["ctype"] = rng.choice(ctypes)
+    fc["ntype"] = rng.choice(list(NTYPES))
+    fc["wpath"] = rng.choice(["str", "Path"])
+    fc["rpath"] = rng.choice(["str", "Path"])
+    if rng.random() < 0.4:
+        fc["dims"] = rng.choice(DIM_POOLS)
+    return fc
+
+
+def gen_field_intcorners(rng, tier):
+    """integer-typed corners with fractional (half-integer ...) cells"""
+    p1, p2, n = [], [], []
+    for _ in range(3):
+        k = rng.choice([1, 2, 2, 4])
+        e = rng.choice([1, 3, 5, 7, 2, 6])          # edge; cell = e / k is a multiple of 1/4
+        lo = rng.randint(-20, 20)
+        hi = lo + e
+        if rng.random() < 0.3:
+            lo, hi = hi, lo
+        p1.append(float(lo)); p2.append(float(hi)); n.append(k)
+    nv = rng.choice([1, 2, 3])
+    vals = gen_values(rng, n[0] * n[1] * n[2] * nv, "index")
+    fc = dict(exact=True, p1=[fhex(x) for x in p1], p2=[fhex(x) for x in p2], n=n, munit="m", subs=[],
+              nv=nv, vdims=(PREFIX_LABELS[:nv] if nv > 1 else None), unit=rng.choice([None, "", "T"]),
+              vals=[fhex(x) for x in vals], vcls="index")
+    dress(rng, fc)
+    fc["ctype"] = rng.choice(["int", "i64arr", "int", "tuple"])
+    return fc
+
+
+def gen_field_pow2(rng, tier):
+    """tiny and huge magnitudes: every absolute tolerance shows"""
+    fc = gen_field(rng, tier, exact=True, subs=False, maxn=3)
+    e = rng.choice([-200, -120, -60, 60, 150, 300])
+    for k in ("p1", "p2"):
+        fc[k] = [fhex(math.ldexp(unhex(x), e)) for x in fc[k]]
+    fc["pow2"] = e
+    return fc
+
+
+def gen_field_dtype(rng, tier, dt):
+    fc = gen_field(rng, tier, subs=False, maxn=3, nv=rng.choice([1, 2, 3]))
+    cnt = len(fc["vals"])
+    fc["dtype"] = dt
+    if dt in ("int64", "int32", "uint8", "uint16"):
+        info = np.iinfo(getattr(np, dt))
+        pool = [0, 1, info.max, info.min, info.max - 1, 255, 2 ** 24 + 1, 2 ** 53 + 1, 2 ** 62 + 12345, -(2 ** 53) - 1, 3037000500]
+        pool = [v for v in pool if info.min <= v <= info.max]
+        iv = [rng.choice(pool) if rng.random() < 0.5 else rng.randint(max(info.min, -1000), min(info.max, 1000)) for _ in range(cnt)]
+        fc["ivals"] = iv
+        fc["vals"] = [fhex(float(v)) for v in iv]
+    elif dt == "float32":
+        fc["vals"] = [fhex(f32(unhex(x))) if not math.isinf(f32(unhex(x))) else fhex(1.5) for x in fc["vals"]]
+    else:
+        fc["imag"] = [fhex(0.0) if dt == "complex0" else fhex(float(rng.randint(1, 9))) for _ in range(cnt)]
+    fc["vcls"] = dt
+    return fc
+
+
 def gen_foreign(rng, tier, version=None, rep=None, maxn=None):
     version = version or rng.choice([1, 2])
     rep = rep or rng.choice(REPS)
@@ -473,6 +544,25 @@ def generate(rng, tier):
     for i in range(nround // 2):
         f = gen_field(rng, tier)
         cases.append(dict(kind="write", field=f, rep=REPS[i % 3], extend=(f["nv"] == 1 and rng.random() < 0.4)))
+    # argument representations: the same requests with corners / n / paths of other types
+    for c in cases:
+        if rng.random() < 0.5:
+            dress(rng, c["field"])
+    for i in range(10 if quick else 60):
+        cases.append(dict(kind="round", field=gen_field_intcorners(rng, tier), rep=REPS[i % 3], extend=False))
+        cases.append(dict(kind="write", field=gen_field_intcorners(rng, tier), rep=REPS[(i + 1) % 3], extend=False))
+    for i in range(9 if quick else 45):
+        cases.append(dict(kind="round", field=gen_field_pow2(rng, tier), rep=REPS[i % 3], extend=False))
+        cases.append(dict(kind="write", field=gen_field_pow2(rng, tier), rep=REPS[(i + 2) % 3], extend=False))
+    for i, dt in enumerate(["int64", "int32", "uint8", "uint16", "float32", "complex0", "complex"] * (2 if quick else 8)):
+        cases.append(dict(kind="round", field=gen_field_dtype(rng, tier, dt), rep=REPS[i % 3], extend=False))
+    for i in range(3 if quick else 9):      # mesh units differ per axis: cannot be stored, must be refused
+        f = gen_field(rng, tier, maxn=2, subs=False)
+        f["munits"] = rng.choice([["m", "nm", "m"], ["m", "m", "s"], ["a", "b", "c"]])
+        cases.append(dict(kind="round", field=f, rep=REPS[i % 3], extend=False))
+    # state left by earlier calls, repeated calls, neighbours in the directory
+    for i in range(24 if quick else 160):
+        cases.append(gen_state(rng, tier, i))
     # axis-order probes: index-coded values on meshes with three different n
     for i in range(12 if quick else 60):
         f = gen_field(rng, tier, vcls="index", exact=True)
@@ -554,14 +644,80 @@ def spec_floats(spec):
 
 
 # =============================================================== implementation side
-def make_field(fc):
-    p1 = [unhex(x) for x in fc["p1"]]
-    p2 = [unhex(x) for x in fc["p2"]]
-    region = df.Region(p1=p1, p2=p2, units=[fc["munit"]] * 3)
-    subs = {name: df.Region(p1=[unhex(x) for x in a], p2=[unhex(x) for x in b]) for name, a, b in fc["subs"]}
-    mesh = df.Mesh(region=region, n=fc["n"], subregions=subs)
-    arr = np.array([unhex(x) for x in fc["vals"]], dtype=np.float64).reshape(*fc["n"], fc["nv"])
-    return df.Field(mesh, nvdim=fc["nv"], value=arr, vdims=fc["vdims"], unit=fc["unit"])
+NTYPES = {"int": int, "int8": np.int8, "uint8": np.uint8, "int16": np.int16, "uint16": np.uint16,
+          "int32": np.int32, "uint32": np.uint32, "int64": np.int64, "uint64": np.uint64}
+
+
+def as_seq(xs, how):
+    """the same numbers in another argument representation"""
+    if how == "tuple":
+        return tuple(xs)
+    if how == "ndarray":
+        return np.array(xs, dtype=np.float64)
+    if how == "f32":          # only used when every number is a float32
+        return np.array(xs, dtype=np.float32)
+    if how == "int":          # only used when every number is an integer
+        return [int(x) for x in xs]
+    if how == "i64arr":
+        return np.array([int(x) for x in xs], dtype=np.int64)
+    return list(xs)
+
+
+def field_array(fc):
+    dt = fc.get("dtype")
+    shape = (*fc["n"], fc["nv"])
+    if dt in ("int64", "int32", "uint8", "uint16"):
+        return np.array(fc["ivals"], dtype=getattr(np, dt)).reshape(shape)
+    if dt == "float32":
+        return np.array([unhex(x) for x in fc["vals"]], dtype=np.float32).reshape(shape)
+    if dt in ("complex0", "complex"):
+        re_ = np.array([unhex(x) for x in fc["vals"]], dtype=np.float64)
+        im_ = np.array([unhex(x) for x in fc["imag"]], dtype=np.float64)
+        return (re_ + 1j * im_).reshape(shape)
+    return np.array([unhex(x) for x in fc["vals"]], dtype=np.float64).reshape(shape)
+
+
+def make_mesh(fc):
+    p1 = as_seq([unhex(x) for x in fc["p1"]], fc.get("ctype", "list"))
+    p2 = as_seq([unhex(x) for x in fc["p2"]], fc.get("ctype", "list"))
+    kw = {}
+    if fc.get("dims"):
+        kw["dims"] = fc["dims"]
+    region = df.Region(p1=p1, p2=p2, units=fc.get("munits") or [fc["munit"]] * 3, **kw)
+    subs = {name: df.Region(p1=[unhex(x) for x in a], p2=[unhex(x) for x in b], **kw) for name, a, b in fc["subs"]}
+    nt = NTYPES[fc.get("ntype", "int")]
+    n = [nt(k) for k in fc["n"]]
+    if fc.get("ctype") == "ndarray":
+        n = np.array(fc["n"], dtype=nt if nt is not int else np.int64)
+    elif fc.get("ctype") == "tuple":
+        n = tuple(n)
+    return df.Mesh(region=region, n=n, subregions=subs)
+
+
+def make_field(fc, mesh=None):
+    mesh = make_mesh(fc) if mesh is None else mesh
+    arr = field_array(fc)
+    kw = {}
+    if fc.get("dtype"):
+        kw["dtype"] = arr.dtype
+    return df.Field(mesh, nvdim=fc["nv"], value=arr, vdims=fc["vdims"], unit=fc["unit"], **kw)
+
+
+def patharg(path, how):
+    import pathlib
+    return pathlib.Path(path) if how == "Path" else str(path)
+
+
+def snapshot(fld):
+    """everything a write/read must leave alone"""
+    m = fld.mesh
+    return dict(arr=fld.array.tobytes(), dtype=str(fld.array.dtype), shape=tuple(fld.array.shape),
+                vdims=None if fld.vdims is None else list(fld.vdims), unit=fld.unit,
+                mapping=dict(fld.vdim_mapping), valid=np.asarray(fld.valid).tobytes(),
+                pmin=m.region.pmin.tobytes(), pmax=m.region.pmax.tobytes(), n=m.n.tobytes(),
+                units=list(m.region.units), dims=list(m.region.dims),
+                subs=[(k, r.pmin.tobytes(), r.pmax.tobytes()) for k, r in m.subregions.items()],
+                ids=(id(fld.mesh), id(fld.mesh.region), id(fld.mesh.subregions)))
 
 
 def observe_field(fld):
@@ -624,7 +780,7 @@ def g_rep(rep):
 
 
 def g_fin(fc):
-    return (f"(mkFin {g_qlist_hex(fc['p1'])} {g_qlist_hex(fc['p2'])} {g.zl(fc['n'])} {g.sl([fc['munit']] * 3)} "
+    return (f"(mkFin {g_qlist_hex(fc['p1'])} {g_qlist_hex(fc['p2'])} {g.zl(fc['n'])} {g.sl(fc.get('munits') or [fc['munit']] * 3)} "
             f"{g_sidecar(fc['subs'])} {g.nat(fc['nv'])} {g_optstrs(fc['vdims'])} {g_optstr(fc['unit'])} "
             f"{g_qlist_hex(fc['vals'])})")
 
@@ -706,7 +862,7 @@ def oracle_roundtrip(fc, rep, extend, o):
     hi = [max(a, b) for a, b in zip(p1, p2)]
     if [unhex(x) for x in o["pmin"]] != lo or [unhex(x) for x in o["pmax"]] != hi:
         bad.append("corners")
-    if o["munits"] != [fc["munit"]] * 3:
+    if o["munits"] != (fc.get("munits") or [fc["munit"]] * 3):
         bad.append("meshunit")
     if o["n"] != fc["n"]:
         bad.append("cell-counts")
@@ -732,10 +888,10 @@ def oracle_roundtrip(fc, rep, extend, o):
             want = ["x", "y", "z"][:nv] if nv <= 3 else [f"v{i}" for i in range(nv)]
         if o["vdims"] != want:
             bad.append("labels")
-    got_subs = [[k, [unhex(x) for x in a], [unhex(x) for x in b]] for k, a, b in o["subs"]]
-    want_subs = [[k, [min(unhex(x), unhex(y)) for x, y in zip(a, b)], [max(unhex(x), unhex(y)) for x, y in zip(a, b)]]
-                 for k, a, b in fc["subs"]]
-    if got_subs != want_subs:
+    got_subs = {k: ([unhex(x) for x in a], [unhex(x) for x in b]) for k, a, b in o["subs"]}
+    want_subs = {k: ([min(unhex(x), unhex(y)) for x, y in zip(a, b)], [max(unhex(x), unhex(y)) for x, y in zip(a, b)])
+                 for k, a, b in fc["subs"]}
+    if got_subs != want_subs or len(o["subs"]) != len(fc["subs"]):
         bad.append("subregions")
     return bad
 
@@ -749,7 +905,7 @@ def oracle_written(fc, rep, extend, a, first_line):
     p2 = [unhex(x) for x in fc["p2"]]
     lo = [min(x, y) for x, y in zip(p1, p2)]
     hi = [max(x, y) for x, y in zip(p1, p2)]
-    if a["min"] != lo or a["max"] != hi or a["nodes"] != fc["n"] or a["meshunit"] != fc["munit"]:
+    if a["min"] != lo or a["max"] != hi or a["nodes"] != fc["n"] or a["meshunit"] != (fc.get("munits") or [fc["munit"]])[0]:
         bad.append("file-mesh")
     for d in range(3):
         sc = max(abs(lo[d]), abs(hi[d]), hi[d] - lo[d])
@@ -808,28 +964,33 @@ def run_round(case):
     fc, rep, extend = case["field"], case["rep"], case["extend"]
     fld = make_field(fc)
     path = newpath()
+    before = snapshot(fld)
 
     def go():
-        fld.to_file(path, representation=rep, extend_scalar=extend)
-        return df.Field.from_file(path)
+        fld.to_file(patharg(path, fc.get("wpath", "str")), representation=rep, extend_scalar=extend)
+        return df.Field.from_file(patharg(path, fc.get("rpath", "str")))
     st, out = attempt(go)
     tags = tags_for(fc, extend)
-    valid_rep = rep in REPS
+    # fields whose mesh units differ per axis cannot be stored: rejection is the documented answer
+    valid_rep = rep in REPS and len(set(fc.get("munits") or ["m"])) == 1
+    untouched = snapshot(fld) == before
     oracle = []
     obs = None
     if st == "ok":
         obs = observe_field(out)
         if not valid_rep:
-            oracle.append("unknown-representation-accepted")
+            oracle.append("invalid-write-accepted")
         else:
             oracle += oracle_roundtrip(fc, rep, extend, obs)
     else:
         obs = dict(rejected=out)
         if valid_rep:
             oracle.append("roundtrip-rejected")
+    if not untouched:
+        oracle.append("operand-modified")
     cleanup(path)
     coq = None
-    if valid_rep and coq_representable(fc) and not (obs and "vals" in obs and has_nonfinite(obs["vals"]) and rep != "bin4"):
+    if rep in REPS and coq_representable(fc) and not (obs and "vals" in obs and has_nonfinite(obs["vals"]) and rep != "bin4"):
         inf_ok = rep == "bin4"
         try:
             gobs = "None" if st != "ok" else f"(Some {g_fobs(obs, inf_ok)})"
@@ -844,7 +1005,7 @@ def run_write(case):
     fc, rep, extend = case["field"], case["rep"], case["extend"]
     fld = make_field(fc)
     path = newpath()
-    st, out = attempt(lambda: fld.to_file(path, representation=rep, extend_scalar=extend))
+    st, out = attempt(lambda: fld.to_file(patharg(path, fc.get("wpath", "str")), representation=rep, extend_scalar=extend))
     tags = tags_for(fc, extend)
     oracle = []
     coq = None
